@@ -147,6 +147,17 @@ async def play(lab: L.Lab, case: dict, port: int, bind_port: int | None) -> dict
                 ok = await L.establish(cur, remote_open(c, args[0] if args else None), 10.0)
                 if not ok:
                     notes.append((i, 'not-established'))
+                elif c.get('peer_eor', True):
+                    # a real peer ends its (here empty) initial table with an End-of-RIB marker per family (RFC 4724)
+                    import struct as _struct
+
+                    fams = (args[0] or {}).get('families', c.get('families', [(1, 1)])) if args else c.get('families', [(1, 1)])
+                    for a, s_ in fams:
+                        if (a, s_) == (1, 1):
+                            await cur.send(rw.message(rw.UPDATE, b'\0\0\0\0'))
+                        else:
+                            await cur.send(rw.message(rw.UPDATE, rw.enc_update_body(b'', rw.enc_attr(0x80, 15, _struct.pack('!HB', a, s_)), b'')))
+                    lab.event('remote-eor', session=cur.id, families=[list(f) for f in fams])
         elif op == 'send':
             if cur:
                 await cur.send(bytes.fromhex(args[0]))
